@@ -14,7 +14,9 @@ import (
 	"io"
 	"log/slog"
 	"strings"
+	"sync"
 	"testing"
+	"testing/synctest"
 
 	"github.com/KafScale/platform/pkg/metadata"
 	"github.com/KafScale/platform/pkg/protocol"
@@ -486,6 +488,13 @@ func c28Gen(r *vRand) c28Case {
 		}
 		cs.Snapshot.Topics = append(cs.Snapshot.Topics, t)
 	}
+	c28GenReq(r, &cs, ids)
+	return cs
+}
+
+// c28GenReq fills the request part of cs; ids are the topic ids of the snapshot.
+func c28GenReq(r *vRand, cs *c28Case, ids [][16]byte) {
+	names := []string{"orders", "events", "a", "b.c", "t5", "__consumer_offsets"}
 	switch k := r.Intn(20); {
 	case k < 5:
 		cs.All = true
@@ -522,7 +531,128 @@ func c28Gen(r *vRand) c28Case {
 			cs.Topics[0], cs.Topics[1] = cs.Topics[1], cs.Topics[0]
 		}
 	}
+}
+
+// ---------------- concurrent stream ----------------
+// Several requests of different shapes against ONE proxy at the same time: the store is
+// gated so that every request is parked (in the store, or behind whatever state the
+// handlers share) before any of them proceeds; testing/synctest makes "all parked"
+// an observable, deterministic point.  Each reply is judged against its own request
+// exactly like a sequential case, and must equal the reply the same request gets alone.
+type c28Group struct {
+	Snapshot c28Cluster `json:"snapshot"`
+	Host     string     `json:"host"`
+	Port     int32      `json:"port"`
+	Reqs     []c28Case  `json:"reqs"`
+}
+
+type c28GatedStore struct {
+	metadata.Store
+	gate chan struct{}
+}
+
+func (g *c28GatedStore) Metadata(ctx context.Context, topics []string) (*metadata.ClusterMetadata, error) {
+	<-g.gate
+	return g.Store.Metadata(ctx, topics)
+}
+
+func (g c28Group) req(i int) c28Case {
+	cs := g.Reqs[i]
+	cs.Snapshot, cs.Host, cs.Port = g.Snapshot, g.Host, g.Port
 	return cs
+}
+
+// c28RunGroup returns per request the judged result of the concurrently obtained reply.
+func c28RunGroup(t *testing.T, g c28Group) []c28Result {
+	n := len(g.Reqs)
+	outs := make([][]byte, n)
+	errs := make([]error, n)
+	synctest.Test(t, func(t *testing.T) {
+		store := &c28GatedStore{Store: metadata.NewInMemoryStore(c28ToMeta(g.Snapshot)), gate: make(chan struct{})}
+		p := &proxy{store: store, advertisedHost: g.Host, advertisedPort: g.Port,
+			logger: slog.New(slog.NewTextHandler(io.Discard, nil))}
+		p.setReady(true)
+		var wg sync.WaitGroup
+		for i := 0; i < n; i++ {
+			i := i
+			wg.Add(1)
+			go func() {
+				defer wg.Done()
+				outs[i], errs[i] = c28Exec(p, g.req(i))
+			}()
+		}
+		synctest.Wait() // every request is parked
+		close(store.gate)
+		wg.Wait()
+	})
+	// the same requests one at a time on a fresh proxy
+	ref := &proxy{store: metadata.NewInMemoryStore(c28ToMeta(g.Snapshot)), advertisedHost: g.Host, advertisedPort: g.Port,
+		logger: slog.New(slog.NewTextHandler(io.Discard, nil))}
+	ref.setReady(true)
+	results := make([]c28Result, n)
+	for i := 0; i < n; i++ {
+		cs := g.req(i)
+		res := c28RunOn(cs, &c28Pre{out: outs[i], err: errs[i]})
+		if res.fail != "" && res.failOr != "harness" {
+			res.failKey = "concurrent-" + res.failKey
+			res.fail = fmt.Sprintf("request %d of %d issued concurrently: %s", i, n, res.fail)
+		}
+		seq, serr := c28Exec(ref, cs)
+		if res.fail == "" && (serr != nil) != (errs[i] != nil) {
+			res.fail, res.failKey, res.failOr = fmt.Sprintf("request %d: error alone %v, concurrently %v", i, serr, errs[i]), "concurrent-reply-differs-from-sequential", "concurrent"
+		}
+		if res.fail == "" && string(seq) != string(outs[i]) {
+			res.fail, res.failKey, res.failOr = fmt.Sprintf("request %d of %d (v%d): the reply obtained while other requests were in flight differs from the reply to the same request alone", i, n, cs.Version), "concurrent-reply-differs-from-sequential", "concurrent"
+		}
+		results[i] = res
+	}
+	return results
+}
+
+func c28GenGroup(r *vRand) c28Group {
+	var base c28Case
+	for {
+		base = c28Gen(r.Fork())
+		if base.Kind == "meta" && len(base.Snapshot.Topics) >= 2 {
+			break
+		}
+	}
+	g := c28Group{Snapshot: base.Snapshot, Host: base.Host, Port: base.Port}
+	var ids [][16]byte
+	for _, t := range base.Snapshot.Topics {
+		if t.ID != c28Zero {
+			ids = append(ids, t.ID)
+		} else {
+			ids = append(ids, metadata.TopicIDForName(*t.Name))
+		}
+	}
+	for k := r.Range(2, 5); k > 0; k-- {
+		cs := c28Case{Kind: "meta", Ready: !r.Chance(8)}
+		if r.Chance(8) {
+			cs.Kind, cs.Version = "coord", 3
+		} else {
+			c28GenReq(r, &cs, ids)
+			if r.Chance(35) && cs.Version >= 10 { // by id with null names: v12
+				cs.Version = 12
+				for i := range cs.Topics {
+					if cs.Topics[i].ID != c28Zero {
+						cs.Topics[i].Name = nil
+					}
+				}
+			}
+		}
+		g.Reqs = append(g.Reqs, cs)
+	}
+	return g
+}
+
+func c28FirstFail(rs []c28Result) (int, bool) {
+	for i, r := range rs {
+		if r.fail != "" {
+			return i, true
+		}
+	}
+	return -1, false
 }
 
 // ---------------- Coq emission ----------------
@@ -604,7 +734,7 @@ func c28Shrink(cs c28Case, key string) c28Case {
 }
 
 func TestVerifC28(t *testing.T) {
-	rep := vNewReport("C28", "generated cluster metadata snapshots (0-5 topics incl. duplicate names/ids, topic-level and partition-level error codes, leaders -1..5, epochs, replica/ISR/offline lists, zero topic ids) in a real metadata.InMemoryStore and Metadata requests v0-v12 (all topics, empty list, by name incl. unknown/duplicate names, by topic id v10-12 incl. unknown ids, mixed) through the real handleMetadata / buildNotReadyResponse, FindCoordinator v3 through handleFindCoordinator / buildNotReadyResponse; a case is non-trivial when the reply contains a partition or an unknown-topic entry or is a not-ready/coordinator reply; distinct = distinct canonical case")
+	rep := vNewReport("C28", "generated cluster metadata snapshots (0-5 topics incl. duplicate names/ids, topic-level and partition-level error codes, leaders -1..5, epochs, replica/ISR/offline lists, zero topic ids) in a real metadata.InMemoryStore and Metadata requests v0-v12 (all topics, empty list, by name incl. unknown/duplicate names, by topic id v10-12 incl. unknown ids, mixed) through the real handleMetadata / buildNotReadyResponse, FindCoordinator v3 through handleFindCoordinator / buildNotReadyResponse; plus a concurrent stream (groups of 2-6 requests issued simultaneously under testing/synctest with a gated store, each judged against its own request and against its sequential reply); a case is non-trivial when the reply contains a partition or an unknown-topic entry or is a not-ready/coordinator reply; distinct = distinct canonical case")
 	var coq, jsons []string
 	runOne := func(cs c28Case) {
 		res := c28Run(cs)
@@ -668,12 +798,60 @@ func TestVerifC28(t *testing.T) {
 			jsons = append(jsons, string(canon))
 		}
 	}
-	if rc := vReplayCase(); rc != nil {
-		var cs c28Case
-		if err := json.Unmarshal(rc, &cs); err != nil {
-			t.Fatalf("bad replay: %v", err)
+	runGroup := func(g c28Group) {
+		results := c28RunGroup(t, g)
+		canon, _ := json.Marshal(g)
+		rep.Count(string(canon), true)
+		rep.Hist("concurrent-group")
+		rep.Hist(fmt.Sprintf("concurrent-group-of-%d", len(g.Reqs)))
+		if i, bad := c28FirstFail(results); bad {
+			key := results[i].failKey
+			if results[i].failOr == "harness" {
+				rep.Fail("harness", "harness-error", results[i].fail, g)
+			} else {
+				shr := g
+				shr.Reqs = vShrink(g.Reqs, func(rs []c28Case) bool {
+					if len(rs) < 2 {
+						return false
+					}
+					c := g
+					c.Reqs = rs
+					j, b := c28FirstFail(c28RunGroup(t, c))
+					_ = j
+					return b
+				})
+				rs2 := c28RunGroup(t, shr)
+				if j, b := c28FirstFail(rs2); b {
+					rep.Fail(rs2[j].failOr, rs2[j].failKey, rs2[j].fail, shr)
+				} else {
+					rep.Fail(results[i].failOr, key, results[i].fail, g)
+				}
+			}
 		}
-		runOne(cs)
+		for i, res := range results {
+			if res.failOr != "harness" {
+				coq = append(coq, c28Coq(g.req(i), res))
+				jsons = append(jsons, string(canon))
+			}
+		}
+	}
+	if rc := vReplayCase(); rc != nil {
+		var probe struct {
+			Reqs []json.RawMessage `json:"reqs"`
+		}
+		if json.Unmarshal(rc, &probe) == nil && len(probe.Reqs) > 0 {
+			var g c28Group
+			if err := json.Unmarshal(rc, &g); err != nil {
+				t.Fatalf("bad replay: %v", err)
+			}
+			runGroup(g)
+		} else {
+			var cs c28Case
+			if err := json.Unmarshal(rc, &cs); err != nil {
+				t.Fatalf("bad replay: %v", err)
+			}
+			runOne(cs)
+		}
 	} else {
 		tn, un := "t", "missing"
 		id1 := [16]byte{1}
@@ -696,6 +874,26 @@ func TestVerifC28(t *testing.T) {
 		n := vN(450, 6000)
 		for i := 0; i < n; i++ {
 			runOne(c28Gen(r.Fork()))
+		}
+		// concurrent stream: corpus shape first (two v12 by-id requests for different topics
+		// + all topics + empty list at once), then generated groups
+		{
+			na, nb := "a", "b"
+			ida, idb := [16]byte{0xa}, [16]byte{0xb}
+			snap := c28Cluster{Brokers: []c28Broker{{1, "b1", 9092}}, Controller: 1, Topics: []c28Topic{
+				{Name: &na, ID: ida, Parts: []c28Part{{ID: 0, Leader: 1, Epoch: 3, Replicas: []int32{1}, ISR: []int32{1}}}},
+				{Name: &nb, ID: idb, Err: 5, Parts: []c28Part{{ID: 0, Leader: 1, Epoch: 8}, {ID: 1, Leader: 1, Epoch: 9, Err: 9}}}}}
+			runGroup(c28Group{Snapshot: snap, Host: "p", Port: 9092, Reqs: []c28Case{
+				{Kind: "meta", Ready: true, Version: 12, Topics: []c28ReqTopic{{ID: ida}}},
+				{Kind: "meta", Ready: true, Version: 12, Topics: []c28ReqTopic{{ID: idb}}},
+				{Kind: "meta", Ready: true, Version: 12, All: true},
+				{Kind: "meta", Ready: true, Version: 9, Topics: []c28ReqTopic{}},
+				{Kind: "meta", Ready: true, Version: 5, Topics: []c28ReqTopic{{Name: &nb}}},
+				{Kind: "coord", Ready: true, Version: 3}}})
+		}
+		ng := vN(60, 800)
+		for i := 0; i < ng; i++ {
+			runGroup(c28GenGroup(r.Fork()))
 		}
 	}
 	rep.Cases("C28", "From KS Require Import lib.Base model.Proxy corr.ProxyCorr.", "mcase", "check_mcase", coq, jsons)
